@@ -375,7 +375,7 @@ def c14(pid, tier, seed, t0):
               H("limits-opt", "c14", "opt", group="c14-opt"),
               P("timed-release", _pm2("c14_stage"))]
     return run_stages(pid, tier, seed, t0, "exploration", stages,
-                      required=("timed_searches", "timed_searches_at_200ms", "timed_searches_quiescence_heavy", "timed_searches_after_option_in_bestmove_window", "timed_searches_whose_thread_started_after_the_clock_ran_out", "timed_searches_with_only_the_movers_clock", "timed_searches_right_after_a_long_search", "timed_long_sessions_past_256_searches", "movetime_with_overhead_cases", "grid_tuples", "random_tuples", "remaining_below_200ms",
+                      required=("timed_searches", "timed_searches_at_200ms", "timed_searches_quiescence_heavy", "timed_searches_after_option_in_bestmove_window", "timed_searches_whose_thread_started_after_the_clock_ran_out", "timed_searches_with_only_the_movers_clock", "timed_searches_right_after_a_long_search", "timed_searches_with_a_depth_cap_next_to_the_clock", "timed_long_sessions_past_256_searches", "movetime_with_overhead_cases", "grid_tuples", "random_tuples", "remaining_below_200ms",
                                 "only_one_sides_time_supplied", "moves_to_go_1", "moves_to_go_u32_max",
                                 "overhead_exactly_half", "fixed_movetime_cases"),
                       assumptions=["limits read through hook H2", "bound checked with a tolerance of one f32 ulp of the "
